@@ -203,9 +203,11 @@ def handleCostModel (args : List String) : Option CostModel × String :=
     | none => (none, "bad-costmodel")
   | none => (none, "bad-sexp")
 
-/-- `costpos`: does the installed cost model pass the decidable step-price check of `cek_terminates`? -/
+/-- `costpos`: does the installed cost model pass the two decidable checks (`stepsPositive`,
+`builtinsNonneg`) from which `posCosts_of_checks` derives the hypothesis of `cek_terminates` and of
+C05's `budget_suffices`? -/
 def handleCostPos : Option CostModel → String
-  | some cm => if stepsPositive cm then "pos" else "nonpos"
+  | some cm => if stepsPositive cm && builtinsNonneg cm then "pos" else "nonpos"
   | none => "no-costmodel"
 
 end AikenVerif.Drivers.Cek
